@@ -16,3 +16,5 @@ Definition c_StructEnd := 11.
 Definition c_ZeroTag := 12.
 Definition c_SimpleList := 13.
 Definition c_maxSkipDepth := 512.
+Definition c_rogger_queue_cap := 10000.
+Definition c_rogger_wait_flush_timeout_ms := 1000.
